@@ -32,24 +32,38 @@ def char_tables_rule(ctx, facts, rid):
             continue
         bad = None
         n = 0
-        for code in range(0x300):
-            v = _fold_ret(fb, fc, [("const", code, "char")])
+        # the model of from_char (narrowing casts kept) on: every code point below 0x300, and every scalar value that shares its low
+        # byte or its low 16 bits with a documented spelling (what a cast to a narrower integer would confuse)
+        from .machine import run_function, Stuck
+        from .teval import Unsupported, Panic
+        codes = list(range(0x300))
+        for a in alphabet:
+            codes += [ord(a) + 0x100 * k_ for k_ in range(3, 0x100)] + [ord(a) + 0x10000 * k_ for k_ in range(1, 0x11)]
+        codes = [c_ for c_ in codes if not (0xD800 <= c_ <= 0xDFFF) and c_ <= 0x10FFFF]
+        for code in codes:
+            try:
+                v = run_function(facts, fc, {1: code})[0]
+                got = ("Some", v[2][0]) if isinstance(v, tuple) and v[0] == "agg" and v[1] == "Some" else \
+                    (("None",) if isinstance(v, tuple) and v[0] == "agg" and v[1] == "None" else ("?", repr(v)[:40]))
+            except Panic as ex:
+                got = ("panic", str(ex)[:40])
+            except (Stuck, Unsupported) as ex:
+                got = ("not evaluable", str(ex)[:60])
             n += 1
             ch = chr(code)
-            if ch in alphabet:
-                ok = v is not None and v[0] == "agg" and v[2] == "Some" and v[3][0][0] == "const" and v[3][0][1] == idx(ch)
-            else:
-                ok = v is not None and v[0] == "agg" and v[2] == "None"
-            if not ok and bad is None:
-                bad = (code, show(v) if v else None)
+            want = ("Some", idx(ch)) if ch in alphabet else ("None",)
+            if got != want and bad is None:
+                bad = (code, "%s (U+%04X)" % (" ".join(str(x) for x in got), code))
         r.check(bad is None, ty + "::from_char", "%s::from_char(%r) = %s; documented spellings are exactly %r"
                 % (ty, chr(bad[0]) if bad else "", bad[1] if bad else "", alphabet), site=ctx.site(fc), what="%s::from_char on %d code points" % (ty, n))
         badw = None
         for i, ch in enumerate(alphabet):
-            arg = ("ref", ("const", idx(ch), T + ty))
-            v = _fold_ret(fb, ac, [arg])
-            if not (v and v[0] == "const" and v[1] == ord(ch)) and badw is None:
-                badw = (ch, show(v) if v else None)
+            try:
+                v = run_function(facts, ac, {1: idx(ch)}, deref_self=True)[0]
+            except (Stuck, Unsupported, Panic) as ex:
+                v = "not evaluable: %s" % str(ex)[:60]
+            if v != ord(ch) and badw is None:
+                badw = (ch, repr(chr(v)) if isinstance(v, int) and 0 <= v < 0x110000 else str(v))
         r.check(badw is None, ty + "::as_char", "%s::as_char of the value spelled %r gives %s" % (ty, badw[0] if badw else "", badw[1] if badw else ""),
                 site=ctx.site(ac), what="%s::as_char inverts from_char on all %d values" % (ty, len(alphabet)))
 
